@@ -20,7 +20,7 @@ RULE = (
     "kernels with exponentially many dependency paths (tests/test_files/kernel_x86_long_LCD.s; generated recurrence kernels in which "
     "every instruction reads the two previous results, 14-45 lines = below and 50-70 lines = above the multi-process threshold) and "
     "ordinary kernels x timeouts {0, 1, 2, generous (120), -1 where the search is feasible}; worker kill points are wherever the "
-    "timeout strikes. Non-trivial: the search was actually cut short (kill or abandoned enumeration observed) or >= 2 cycles were "
+    "timeout strikes; the warning list of the structured report and the pauses the waiting parent asks for are observed as well. Non-trivial: the search was actually cut short (kill or abandoned enumeration observed) or >= 2 cycles were "
     "reported; distinct by digest of (kernel, timeout)"
 )
 ASSUMPTIONS = [
